@@ -71,9 +71,17 @@ def finish (m : List (List Int × BitVec w)) : Expr w :=
   stableSort (fun a b => leVars a.vars b.vars)
     ((m.filter (fun kc => kc.2 != 0#w)).map (fun kc => { coef := kc.2, vars := kc.1 }))
 
-/-- The `retain_mut` used by the one-term fast paths of `mul` (variables appended, not sorted). -/
-def scaleAppend (e : Expr w) (p : Part w) : Expr w :=
+/-- The one-term fast paths of `mul`: every part is scaled and gets the single term's variables
+(`vars.extend(..); vars.sort()`), zero parts are dropped (`retain_mut`), then the parts are re-sorted
+by `vars` (`sort_by`). `scaleAppendOrig` is the code before the repair (no sorting), kept for the
+witness theorem in `Props/C15`. -/
+def scaleAppendOrig (e : Expr w) (p : Part w) : Expr w :=
   (e.map (fun q => { coef := q.coef * p.coef, vars := q.vars ++ p.vars })).filter (fun q => q.coef != 0#w)
+
+def scaleAppend (e : Expr w) (p : Part w) : Expr w :=
+  stableSort (fun a b => leVars a.vars b.vars)
+    ((e.map (fun q => { coef := q.coef * p.coef, vars := sortVars (q.vars ++ p.vars) })).filter
+      (fun q => q.coef != 0#w))
 
 /-- `Expr::mul`. -/
 def mul (a b : Expr w) : Expr w :=
@@ -141,10 +149,11 @@ def constIncOf (e : Expr w) (v : Int) : Option (BitVec w) :=
   | [p0, p1] => if p0.vars.isEmpty && p1.coef = 1#w && p1.vars == [v] then some p0.coef else none
   | _ => none
 
-/-- `Expr::prod_of`. -/
+/-- `Expr::prod_of` (the result is re-sorted by `vars`). -/
 def prodOf (e : Expr w) (v : Int) : Option (Expr w) :=
   if e.all (fun p => (p.vars.filter (· == v)).length == 1) then
-    some (e.map (fun p => { coef := p.coef, vars := p.vars.filter (· != v) }))
+    some (stableSort (fun a b => leVars a.vars b.vars)
+      (e.map (fun p => { coef := p.coef, vars := p.vars.filter (· != v) })))
   else none
 
 /-- `Expr::constant_part`. -/
